@@ -4,7 +4,6 @@ import (
 	"bytes"
 	"fmt"
 	"reflect"
-	"sort"
 	"strings"
 	"time"
 
@@ -80,10 +79,15 @@ func sameVal(a, b any) bool {
 		if !ok {
 			return false
 		}
-		xs, ys := append([]string{}, x...), append([]string{}, y...)
-		sort.Strings(xs)
-		sort.Strings(ys)
-		return strings.Join(xs, "\x00") == strings.Join(ys, "\x00") && len(xs) == len(ys)
+		// "the same set of IDs"
+		xs, ys := map[string]bool{}, map[string]bool{}
+		for _, id := range x {
+			xs[id] = true
+		}
+		for _, id := range y {
+			ys[id] = true
+		}
+		return reflect.DeepEqual(xs, ys)
 	}
 	return reflect.DeepEqual(a, b)
 }
@@ -321,7 +325,7 @@ func suiteDocument(r *Rng, n int, thorough bool, o *Out) {
 			}
 			p, _ := guard(func() { doc.Include(res) })
 			if p {
-				o.emit(lst("marshal", "include-panic"), "panic", "FAIL:Include panicked")
+				o.emit(lst("marshal", "include-panic"), "panic", "FAIL[C03]:C03 Include panicked")
 			}
 		}
 		// selection
@@ -371,42 +375,35 @@ func suiteDocument(r *Rng, n int, thorough bool, o *Out) {
 		if err != nil {
 			pv := "ok"
 			if _, isInt := doc.Data.(int); !isInt || len(doc.Errors) > 0 {
-				pv = "FAIL:MarshalDocument failed: " + err.Error()
+				pv = "FAIL[C02]:C02 MarshalDocument failed: " + err.Error()
 			}
 			o.emit(op, "err", pv)
 			continue
 		}
 		obs, tree := jsonSx(out)
-		pv := "ok"
-		fail := func(m string) {
-			if pv == "ok" {
-				pv = "FAIL:" + m
-			}
-		}
+		var v verdicts
 		if tree == nil || strings.HasPrefix(obs, "duplicate") || tree.kind != 'o' {
-			fail("output is not a JSON object without duplicate keys")
+			v.fail("C03", "output is not a JSON object without duplicate keys")
 		} else {
 			// C03 top level
 			if tree.get("jsonapi") == nil {
-				fail("no jsonapi member")
+				v.fail("C03", "no jsonapi member")
 			}
 			if l := tree.get("links").get("self"); l == nil || l.kind != 's' || l.text != selfHref {
-				fail("self link")
+				v.fail("C03", "self link")
 			}
 			if tree.get("data") != nil && tree.get("errors") != nil {
-				fail("both data and errors")
+				v.fail("C03", "both data and errors")
 			}
 			if tree.get("included") != nil && tree.get("data") == nil {
-				fail("included without data")
+				v.fail("C03", "included without data")
 			}
 			if len(doc.Errors) > 0 && tree.get("errors") == nil {
-				fail("errors missing")
+				v.fail("C02", "errors missing")
 			}
 			// resource objects
 			checkOne := func(n *jnode, res jsonapi.Resource) {
-				if m := checkResourceObject(n, res, doc.PrePath, fields[res.GetType().Name], doc.RelData); m != "" {
-					fail(m)
-				}
+				checkResourceObject(&v, n, res, doc.PrePath, fields[res.GetType().Name], doc.RelData)
 			}
 			if data := tree.get("data"); data != nil {
 				switch {
@@ -420,7 +417,7 @@ func suiteDocument(r *Rng, n int, thorough bool, o *Out) {
 			}
 			if inc := tree.get("included"); inc != nil {
 				if inc.kind != 'a' || len(inc.items) != len(doc.Included) {
-					fail("included is not the list of included resources")
+					v.fail("C02", "included is not the list of included resources")
 				} else {
 					for i := range doc.Included { // doc.Included is sorted by MarshalDocument
 						checkOne(inc.items[i], doc.Included[i])
@@ -433,14 +430,30 @@ func suiteDocument(r *Rng, n int, thorough bool, o *Out) {
 				for _, res := range append(append([]jsonapi.Resource{}, prim...), doc.Included...) {
 					k := resKeyOf(res)
 					if seen[k] {
-						fail("type/ID pair " + k + " appears twice across data and included")
+						v.fail("C03", "type/ID pair "+k+" appears twice across data and included")
 					}
 					seen[k] = true
 				}
 			}
 		}
+		// C02 / C01: round trip (before the C11 block permutes the document)
+		var back *jsonapi.Document
+		var uerr error
+		obsU := ""
+		if p, msg := guard(func() { back, uerr = jsonapi.UnmarshalDocument(out, s) }); p {
+			v.fail("C02", "round trip: UnmarshalDocument panicked: "+msg)
+			obsU = "panic"
+		} else if uerr != nil {
+			v.fail("C02", "round trip: UnmarshalDocument failed: "+uerr.Error())
+			obsU = "err"
+		} else {
+			obsU = "ok " + sxDocResult(back)
+			if props, m := roundTrip(back, doc, fields, prim); m != "" {
+				v.fail(props, "round trip: "+m)
+			}
+		}
 		// C11: same bytes again, and after permuting the order-irrelevant parts
-		for k := 0; k < reps && pv == "ok"; k++ {
+		for k := 0; k < reps; k++ {
 			for t := range fields {
 				l := fields[t]
 				r.Shuffle(len(l), func(i, j int) { l[i], l[j] = l[j], l[i] })
@@ -463,56 +476,42 @@ func suiteDocument(r *Rng, n int, thorough bool, o *Out) {
 			var out2 []byte
 			guard(func() { out2, _ = jsonapi.MarshalDocument(doc, url) })
 			if !bytes.Equal(out, out2) {
-				fail("output changes between calls or under reordering")
+				v.fail("C11", "output changes between calls or under reordering")
 			}
 		}
-		if pv == "ok" {
-			for i, res := range all {
-				after := snapshot(res)
-				for k, v := range before[fmt.Sprint(i)] {
-					if after[k] != v {
-						fail("marshaling changed what is read from a resource (" + k + ")")
-					}
+		for i, res := range all {
+			after := snapshot(res)
+			for k, x := range before[fmt.Sprint(i)] {
+				if after[k] != x {
+					v.fail("C11", "marshaling changed what is read from a resource ("+k+")")
 				}
 			}
 		}
-		// C02 / C01: round trip
-		if pv == "ok" {
-			if m := roundTrip(out, doc, s, fields, prim); m != "" {
-				fail("round trip: " + m)
-			}
-		}
+		pv := v.String()
 		o.emit(op, obs, pv)
+		// the unmarshaling half of the round trip, against the model's UnmarshalDocument
+		o.emit(lst("unm", "doc", sxSSchema(ts), sxDocSke(out)), obsU, "na")
 	}
 }
 
-func roundTrip(out []byte, doc *jsonapi.Document, s *jsonapi.Schema, fields map[string][]string, prim []jsonapi.Resource) string {
-	var back *jsonapi.Document
-	var err error
-	p, msg := guard(func() { back, err = jsonapi.UnmarshalDocument(out, s) })
-	if p {
-		return "UnmarshalDocument panicked: " + msg
-	}
-	if err != nil {
-		return "UnmarshalDocument failed: " + err.Error()
-	}
+func roundTrip(back *jsonapi.Document, doc *jsonapi.Document, fields map[string][]string, prim []jsonapi.Resource) (string, string) {
 	if len(doc.Errors) > 0 {
 		if back.Data != nil {
-			return "errors document came back with data"
+			return "C02", "errors document came back with data"
 		}
 		if len(back.Errors) != len(doc.Errors) {
-			return "number of errors"
+			return "C02", "number of errors"
 		}
 		for i := range doc.Errors {
 			a, b := doc.Errors[i], back.Errors[i]
 			if a.ID != b.ID || a.Code != b.Code || a.Status != b.Status || a.Title != b.Title || a.Detail != b.Detail {
-				return "error object members"
+				return "C02", "error object members"
 			}
 			if sxErrorObj(a) != sxErrorObj(b) {
-				return "error object links/source/meta"
+				return "C02", "error object links/source/meta"
 			}
 		}
-		return ""
+		return "", ""
 	}
 	cmp := func(a, b jsonapi.Resource) string {
 		t := a.GetType().Name
@@ -521,44 +520,44 @@ func roundTrip(out []byte, doc *jsonapi.Document, s *jsonapi.Schema, fields map[
 	switch x := doc.Data.(type) {
 	case nil:
 		if back.Data != nil {
-			return "null data came back as something"
+			return "C02", "null data came back as something"
 		}
 	case jsonapi.Identifier:
 		res, ok := back.Data.(jsonapi.Resource)
 		if !ok || res.Get("id") != x.ID || res.GetType().Name != x.Type {
-			return "identifier"
+			return "C02", "identifier"
 		}
 	case jsonapi.Identifiers:
 		col, ok := back.Data.(jsonapi.Collection)
 		if !ok || col.Len() != len(x) {
-			return fmt.Sprintf("identifiers came back as %T", back.Data)
+			return "C02", fmt.Sprintf("identifiers came back as %T", back.Data)
 		}
 		for i := range x {
 			if col.At(i).Get("id") != x[i].ID || col.At(i).GetType().Name != x[i].Type {
-				return "identifiers: element"
+				return "C02", "identifiers: element"
 			}
 		}
 	case jsonapi.Collection:
 		col, ok := back.Data.(jsonapi.Collection)
 		if !ok || col.Len() != len(prim) {
-			return fmt.Sprintf("collection came back as %T", back.Data)
+			return "C02", fmt.Sprintf("collection came back as %T", back.Data)
 		}
 		for i := range prim {
 			if m := cmp(prim[i], col.At(i)); m != "" {
-				return m
+				return "C01,C02", m
 			}
 		}
 	case jsonapi.Resource:
 		res, ok := back.Data.(jsonapi.Resource)
 		if !ok {
-			return fmt.Sprintf("resource came back as %T", back.Data)
+			return "C02", fmt.Sprintf("resource came back as %T", back.Data)
 		}
 		if m := cmp(x, res); m != "" {
-			return m
+			return "C01,C02", m
 		}
 	}
 	if len(back.Included) != len(doc.Included) {
-		return "number of included resources"
+		return "C02", "number of included resources"
 	}
 	for _, a := range doc.Included {
 		found := false
@@ -568,13 +567,13 @@ func roundTrip(out []byte, doc *jsonapi.Document, s *jsonapi.Schema, fields map[
 			}
 		}
 		if !found {
-			return "included resource " + resKeyOf(a) + " did not come back with equal values"
+			return "C02", "included resource " + resKeyOf(a) + " did not come back with equal values"
 		}
 	}
 	if sxMetaMap(doc.Meta) != sxMetaMap(back.Meta) {
-		return "meta"
+		return "C02", "meta"
 	}
-	return ""
+	return "", ""
 }
 
 func init() { suites["document"] = suiteDocument }
